@@ -1590,6 +1590,12 @@ class Interp:
             rd = self.arr_reader(v)
             sel = [rd(i) for i in range(n) if idx[i]]
             return LArr(len(sel), self._list_reader(sel))
+        if is_arr(idx) and self.arr_dtype(idx) == "bool" and is_arr(v) and concrete_int(self.arr_len(idx)) is not None and concrete_int(self.arr_len(idx)) <= 4:
+            # symbolic mask of small concrete length: one path per feasible mask value, then the concrete-mask case
+            n = concrete_int(self.arr_len(idx))
+            rd = self.arr_reader(idx)
+            mask = np.array([bool(self.branch(core.to_bool(rd(i)))) for i in range(n)], dtype=bool)
+            return self.subscript_load(v, mask, node)
         if is_arr(idx) and self.arr_dtype(idx) == "bool":
             raise Unsupported("boolean-mask load")
         if isinstance(idx, list) and len(idx) == 1 and is_arr(v):
